@@ -59,8 +59,8 @@ def run_case(case, prefix=None):
     P = prefix or PREFIX
     res = Result()
     drv, peer = case.get("drv", "full"), case.get("peer", "full")
-    lk = Link(drv, peer, mcu=case.get("mcu"), plus=case.get("plus", True), warm=case.get("warm"))
-    res.label("plus-chips" if case.get("plus", True) else "nonplus-chips", "cold-chips" if case.get("warm") is None else "warm-chips")
+    lk = Link(drv, peer, mcu=case.get("mcu"), plus=case.get("plus", True), warm=case.get("warm"), shared_spi=bool(case.get("shared_spi")))
+    res.label("plus-chips" if case.get("plus", True) else "nonplus-chips", "cold-chips" if case.get("warm") is None else "warm-chips", "shared-spidev" if case.get("shared_spi") else "own-spidev")
     sim, med, T, R, ptx, prx = lk.sim, lk.med, lk.T, lk.R, lk.tx, lk.rx
     mode, arc, ardc, rate = case["mode"], case["arc"], case["ard"], case["rate"]
     # configuration pre-history on both ends: calls that re-assert documented defaults or toggle a feature and put it
